@@ -308,6 +308,11 @@ def evaluate(case):
         if case["path"] != "pickle" and (stagnant_lift(a2, b2) or (ra.status != rb.status and any(
                 t_ in a2 and len(a2[t_]) for t_ in ("pump", "compressor")))):
             labels.add("pipeflow_not_compared:stagnant_pump_or_compressor")
+        elif ra.status != rb.status and opts.get("friction_model", "nikuradse") != "nikuradse" and case["path"] != "pickle" and \
+                {ra.status, rb.status} == {"ok", "not_converged"}:
+            # Colebrook-White / Swamee-Jain are erratic on weakly loaded branches (gen.hyd_case): with inputs that differ by the
+            # JSON precision the verdict can differ; same discard as in C06 / C09
+            labels.add("pipeflow_not_compared:verdict_under_turbulent_only_friction_model")
         elif ra.status != rb.status:
             f.append(Finding("pipeflow", "C15.pipeflow.status", {"original": ra.status, "loaded": rb.status, "exc": repr(rb.exc)[:200]}))
         elif ra.ok and case["path"] != "pickle":
